@@ -30,21 +30,22 @@ def shift (ext : List Byte) (c : Cur) : Cur := { c with rest := c.rest ++ ext }
 end Cur
 
 /-- A parsing step on the cursor; mirrors a Rust function `fn(&mut Bytes) -> Result<T>`. -/
-def P (α : Type) : Type := Cur → Outcome (α × Cur)
+structure P (α : Type) where
+  run : Cur → Outcome (α × Cur)
 
 namespace P
-@[inline] def pure {α : Type} (a : α) : P α := fun c => .ok (a, c)
-@[inline] def bind {α β : Type} (f : P α) (g : α → P β) : P β := fun c =>
-  match f c with
-  | .ok (a, c') => g a c'
+@[inline] def pure {α : Type} (a : α) : P α := ⟨fun c => .ok (a, c)⟩
+@[inline] def bind {α β : Type} (f : P α) (g : α → P β) : P β := ⟨fun c =>
+  match f.run c with
+  | .ok (a, c') => (g a).run c'
   | .part => .part
   | .err e => .err e
-  | .ub u => .ub u
+  | .ub u => .ub u⟩
 /-- `return Err(e)` -/
-@[inline] def fail {α : Type} (e : Error) : P α := fun _ => .err e
+@[inline] def fail {α : Type} (e : Error) : P α := ⟨fun _ => .err e⟩
 /-- `return Ok(Status::Partial)` -/
-@[inline] def partial_ {α : Type} : P α := fun _ => .part
-@[inline] def undefined {α : Type} (u : UB) : P α := fun _ => .ub u
+@[inline] def partial_ {α : Type} : P α := ⟨fun _ => .part⟩
+@[inline] def undefined {α : Type} (u : UB) : P α := ⟨fun _ => .ub u⟩
 end P
 
 instance : Monad P where
@@ -58,45 +59,45 @@ def Cur.next? (c : Cur) : Option (Byte × Cur) :=
   | b :: r => some (b, { c with tok := c.tok ++ [b], rest := r })
 
 /-- `next!(bytes)`: one byte, or `return Ok(Partial)` at end of input. -/
-def next : P Byte := fun c =>
+def next : P Byte := ⟨fun c =>
   match c.rest with
   | [] => .part
-  | b :: r => .ok (b, { c with tok := c.tok ++ [b], rest := r })
+  | b :: r => .ok (b, { c with tok := c.tok ++ [b], rest := r })⟩
 
 /-- `bytes.peek()` -/
 def Cur.peek (c : Cur) : Option Byte := c.rest.head?
 
 /-- `match bytes.peek() { None => return Ok(Partial), Some(b) => b }` (no consumption). -/
-def peekOrPart : P Byte := fun c =>
+def peekOrPart : P Byte := ⟨fun c =>
   match c.rest with
   | [] => .part
-  | b :: _ => .ok (b, c)
+  | b :: _ => .ok (b, c)⟩
 
 /-- `bytes.peek_n::<[u8; n]>(n)`: safe (`get(..n)`), `None` when fewer than `n` bytes remain. -/
 def Cur.peekN (c : Cur) (n : Nat) : Option (List Byte) :=
   if n ≤ c.rest.length then some (c.rest.take n) else none
 
 /-- `unsafe bytes.peek_ahead(n)`; precondition `n ≤ len()`. -/
-def peekAhead (n : Nat) : P (Option Byte) := fun c =>
-  if n ≤ c.rest.length then .ok (c.rest[n]?, c) else .ub .peekAhead
+def peekAhead (n : Nat) : P (Option Byte) := ⟨fun c =>
+  if n ≤ c.rest.length then .ok (c.rest[n]?, c) else .ub .peekAhead⟩
 
 /-- `unsafe bytes.advance(n)`; precondition `n ≤ len()`. (`bump()` is `advance 1`.) -/
-def advance (n : Nat) : P Unit := fun c =>
+def advance (n : Nat) : P Unit := ⟨fun c =>
   if n ≤ c.rest.length then
     .ok ((), { c with tok := c.tok ++ c.rest.take n, rest := c.rest.drop n })
-  else .ub .advance
+  else .ub .advance⟩
 
 /-- `bytes.slice()`: `[start, cursor)`, then `commit()`. -/
-def slice : P Slice := fun c =>
-  .ok (⟨c.start, c.tok⟩, { c with start := c.start + c.tok.length, tok := [] })
+def slice : P Slice := ⟨fun c =>
+  .ok (⟨c.start, c.tok⟩, { c with start := c.start + c.tok.length, tok := [] })⟩
 
 /-- `unsafe bytes.slice_skip(k)`: `[start, cursor - k)`, then `commit()`; precondition
 `k ≤ cursor - start`. -/
-def sliceSkip (k : Nat) : P Slice := fun c =>
+def sliceSkip (k : Nat) : P Slice := ⟨fun c =>
   if k ≤ c.tok.length then
     .ok (⟨c.start, c.tok.take (c.tok.length - k)⟩,
          { c with start := c.start + c.tok.length, tok := [] })
-  else .ub .sliceSkip
+  else .ub .sliceSkip⟩
 
 /-- `expect!(bytes.next() == pat => Err(e))` -/
 def expect (p : Byte → Bool) (e : Error) : P Byte := do
@@ -135,13 +136,13 @@ structure Backend where
   name : Scanner
 
 /-- run a scanner at the cursor and advance by what it reports -/
-def scan (s : Scanner) : P Nat := fun c =>
+def scan (s : Scanner) : P Nat := ⟨fun c =>
   match s c.rest with
   | none => .ub .simdLoad
   | some n =>
     if n ≤ c.rest.length then
       .ok (n, { c with tok := c.tok ++ c.rest.take n, rest := c.rest.drop n })
-    else .ub .scanOverrun
+    else .ub .scanOverrun⟩
 
 /-- A scanner call followed by the mandatory `next!` — the only way the crate uses scanners.
 Returns the number of bytes the scanner matched and the byte after them. -/
